@@ -72,6 +72,17 @@ pub struct Machine {
     pub custom: bool,
     /// registers left as the machine initialised them (uninitialised, holding the fill value) instead of being set
     pub uninit_regs: u8,
+    /// scale dimension: this many devices were attached to the simulator and removed again before the ones the scenario uses
+    /// (device ids are never reused, so the scenario's devices get ids beyond 2^8 / 2^9)
+    pub device_churn: u32,
+}
+#[derive(Clone)]
+pub struct Idle;
+impl ExternalDevice for Idle {
+    fn io_read(&mut self, _: u16, _: bool) -> Option<u16> { None }
+    fn io_write(&mut self, _: u16, _: u16) -> bool { false }
+    fn io_reset(&mut self) {}
+    fn poll_interrupt(&mut self) -> Option<Interrupt> { None }
 }
 impl Machine {
     pub fn user() -> Machine { Machine { pc: 0x3000, psr: 0x8002, saved_sp: 0x3000, regs: [0; 8], kb: Some(vec![]), display: true, custom: true, ..Default::default() } }
@@ -99,6 +110,7 @@ pub fn build(m: &Machine) -> Pair {
     let mut rf = RefLc3::new(base_image(FILL));
     rf.real_traps = m.real_traps; rf.ignore_priv = m.ignore_priv;
     let kb = BufferedKeyboard::default(); let disp = BufferedDisplay::default(); let rec = Recorder::default();
+    for _ in 0..m.device_churn { if let Ok(id) = sim.device_handler.add_device(Idle, &[0xFE50]) { sim.device_handler.remove_device(id); } }
     if let Some(q) = &m.kb {
         kb.get_buffer().write().unwrap_or_else(|e| e.into_inner()).extend(q.iter().copied());
         sim.device_handler.set_keyboard(kb.clone());
